@@ -8,6 +8,11 @@ namespace JS
 /-- a boolean seen as the int it is in Python -/
 def boolNum (b : Bool) : Num := .int (if b then 1 else 0)
 
+/-- find the first binding of `k` and test its value with `p` (`k in d and p(d[k])`) -/
+def lookupWith (k : Str) (p : Json → Bool) : List (Str × Json) → Bool
+  | [] => false
+  | (k', v') :: ys => if k' = k then p v' else lookupWith k p ys
+
 mutual
 /-- Python `==` on JSON values: numbers by exact value with `bool` as 0/1, strings by
     code points, lists in order, dicts as unordered maps. -/
@@ -28,10 +33,7 @@ def pyEqList : List Json → List Json → Bool
 /-- every binding of `xs` has an equal binding in `ys` (dict equality given equal sizes) -/
 def pyEqKvs : List (Str × Json) → List (Str × Json) → Bool
   | [], _ => true
-  | (k, v) :: xs, ys => pyEqLookup k v ys && pyEqKvs xs ys
-def pyEqLookup (k : Str) (v : Json) : List (Str × Json) → Bool
-  | [] => false
-  | (k', v') :: ys => if k' = k then pyEq v v' else pyEqLookup k v ys
+  | (k, v) :: xs, ys => lookupWith k (pyEq v) ys && pyEqKvs xs ys
 end
 
 /-- `unbool(a) == unbool(b)` for values that are not both lists / both dicts: a boolean
@@ -62,10 +64,7 @@ def equalList : List Json → List Json → Bool
 /-- `all(key in two and equal(value, two[key]) for key, value in one.items())` -/
 def equalKvs : List (Str × Json) → List (Str × Json) → Bool
   | [], _ => true
-  | (k, v) :: xs, ys => equalLookup k v ys && equalKvs xs ys
-def equalLookup (k : Str) (v : Json) : List (Str × Json) → Bool
-  | [] => false
-  | (k', v') :: ys => if k' = k then equal v v' else equalLookup k v ys
+  | (k, v) :: xs, ys => lookupWith k (equal v) ys && equalKvs xs ys
 end
 
 /-- Python truthiness -/
